@@ -14,6 +14,7 @@ package main
 import (
 	"bytes"
 	"context"
+	"crypto/tls"
 	"crypto/x509"
 	"encoding/json"
 	"errors"
@@ -167,7 +168,7 @@ func (c *c14Cert) setKey() { c.key = c14StapleKey(c.name, c.chainPEM) }
 
 // c14Ans describes a responder answer (or a persisted staple) to be built for a certificate.
 type c14Ans struct {
-	Kind   string `json:"kind"` // refused | drop | garbage | truncated | empty | tryLater | resp
+	Kind   string `json:"kind"` // refused | drop | midbody | garbage | truncated | empty | whitespace | tryLater | resp
 	HTTP   int    `json:"http,omitempty"`
 	Status int    `json:"status"` // ocsp.Good / Revoked / Unknown
 	Serial string `json:"serial,omitempty"`
@@ -235,6 +236,10 @@ func (wd *c14World) build(a c14Ans, c *c14Cert, now time.Time) []byte {
 	switch a.Kind {
 	case "refused", "drop":
 		return nil
+	case "midbody":
+		return []byte("0\x82")
+	case "whitespace":
+		return []byte(" \r\n\t ")
 	case "garbage":
 		return []byte("<html>502 Bad Gateway</html>")
 	case "empty":
@@ -473,6 +478,10 @@ func (t *c14Tables) mkEnv(a c14Ans, c *c14Cert, now time.Time, f c14Faults) (c14
 	case "drop":
 		ev.Ans = 1
 		return ev, doubles.OCSPAnswer{Drop: true}
+	case "midbody":
+		// the request is seen, the body cannot be read to its end: as good as no answer
+		ev.Ans = 1
+		return ev, doubles.OCSPAnswer{Cut: true, Body: t.wd.build(a, c, now)}
 	}
 	body := t.wd.build(a, c, now)
 	ev.Ans, ev.Blob = 2, t.blob(body)
@@ -486,6 +495,18 @@ type c14Faults struct {
 }
 
 var errInjected = errors.New("injected storage fault")
+
+// safely runs a call into the code under test; a panic of that code is an observation, not a
+// failure of the harness.
+func safely(f func()) (panicked string) {
+	defer func() {
+		if r := recover(); r != nil {
+			panicked = fmt.Sprint("panic: ", r)
+		}
+	}()
+	f()
+	return ""
+}
 
 func c14Hook(keyPrefix string, f func(key string) c14Faults) doubles.Hook {
 	return func(op *doubles.Op) error {
@@ -675,7 +696,8 @@ func (wd *c14World) runCall(in c14CallIn) {
 		sv, sok := b.Get(c.key)
 		preV := c14View{Staple: t.optBlob(pre.Staple, pre.Staple != nil), OCSP: t.optBlob(pre.OCSPRaw, pre.HasOCSP), Stored: t.optBlob(sv, sok)}
 		mark, lmark := wd.resp.Mark(), len(b.Log.Snapshot())
-		serr := certmagic.VerifStapleOCSP(ctx, ocfg, st, &cert, pem)
+		var serr error
+		pmsg := safely(func() { serr = certmagic.VerifStapleOCSP(ctx, ocfg, st, &cert, pem) })
 		t1 := time.Now()
 		b.Log.Hook = nil
 		post := certmagic.VerifViewCert(cert)
@@ -684,6 +706,10 @@ func (wd *c14World) runCall(in c14CallIn) {
 			Seen: len(wd.resp.Since(mark)) > 0, Ops: sopCodes(b.Log.Snapshot()[lmark:], c.key)}
 		if serr != nil {
 			obs.Err = serr.Error()
+		}
+		if pmsg != "" {
+			obs.Err = pmsg
+			wd.w.Hist("call.PANIC")
 		}
 		if !emitIt {
 			return
@@ -705,7 +731,7 @@ func (wd *c14World) runCall(in c14CallIn) {
 		encOpt(e, obs.Staple)
 		encOpt(e, obs.OCSP)
 		encOpt(e, obs.Stored)
-		e.Bool(obs.Seen).Bool(serr != nil).ZList(obs.Ops)
+		e.Bool(obs.Seen).Bool(serr != nil).ZList(obs.Ops).Bool(pmsg != "")
 		class := c14Class(in)
 		nontrivial := !in.Disabled && (preV.Stored >= 0 || (c.url && a.Kind != "refused"))
 		wd.w.Add(emit.Case{Desc: map[string]any{"kind": "call", "class": class, "flavor": in.Flavor, "stored": in.Stored, "ans": a.label(), "via": in.Via},
@@ -987,7 +1013,7 @@ func (wd *c14World) runHist1(plan c14Plan, desc map[string]any, abandoned *bool)
 		cert   int
 		staple int
 	}
-	observe := func(se *emit.Enc, opName string, ownRef int, ret *retObs, callCerts []*c14Cert, mark, lmark int) {
+	observe := func(se *emit.Enc, opName string, ownRef int, ret *retObs, panicked string, callCerts []*c14Cert, mark, lmark int) {
 		if *abandoned {
 			panic("history abandoned")
 		}
@@ -997,6 +1023,10 @@ func (wd *c14World) runHist1(plan c14Plan, desc map[string]any, abandoned *bool)
 		} else {
 			se.Bool(true).Int(ret.cert)
 			encOpt(se, ret.staple)
+		}
+		se.Bool(panicked != "")
+		if panicked != "" {
+			wd.w.Hist("hist.PANIC")
 		}
 		snap, _ := h.snapshot(se)
 		reqs := wd.resp.Since(mark)
@@ -1043,6 +1073,9 @@ func (wd *c14World) runHist1(plan c14Plan, desc map[string]any, abandoned *bool)
 		}
 		sv := h.served(se)
 		st := map[string]any{"op": opName, "after": snap, "calls": cls, "served": sv}
+		if panicked != "" {
+			st["panicked"] = panicked
+		}
 		if ret != nil {
 			st["returned"] = map[string]any{"ok": ret.ok, "cert": ret.cert, "staple": ret.staple}
 		}
@@ -1055,6 +1088,7 @@ func (wd *c14World) runHist1(plan c14Plan, desc map[string]any, abandoned *bool)
 		se := &emit.Enc{}
 		ownRef := -1
 		var ret *retObs
+		pmsg := ""
 		now := time.Now()
 		mark, lmark := wd.resp.Mark(), len(h.b.Log.Snapshot())
 		h.issued, h.failed, h.failIssue = nil, nil, false
@@ -1100,13 +1134,15 @@ func (wd *c14World) runHist1(plan c14Plan, desc map[string]any, abandoned *bool)
 			wd.resp.SetAnswer(func(*big.Int) doubles.OCSPAnswer { return ans })
 			h.b.Log.Hook = c14Hook("ocsp/", func(string) c14Faults { return op.Faults })
 			var err error
-			if c.managed {
-				_, err = h.cfg.CacheManagedCertificate(ctx, c.name)
-			} else {
-				_, err = h.cfg.CacheUnmanagedCertificatePEMBytes(ctx, c.chainPEM, c.keyPEM, nil)
-			}
+			pmsg = safely(func() {
+				if c.managed {
+					_, err = h.cfg.CacheManagedCertificate(ctx, c.name)
+				} else {
+					_, err = h.cfg.CacheUnmanagedCertificatePEMBytes(ctx, c.chainPEM, c.keyPEM, nil)
+				}
+			})
 			h.b.Log.Hook = nil
-			if err != nil {
+			if err != nil && pmsg == "" {
 				_, hasKey := h.b.Get(c14SiteKey(h.iss.IssuerKey(), c.name, ".key"))
 				if c.managed && (!hasKey || h.storedCertFor(c.name) == nil) {
 					// nothing loadable in storage for the name (e.g. its key was moved away after a
@@ -1245,11 +1281,13 @@ func (wd *c14World) runHist1(plan c14Plan, desc map[string]any, abandoned *bool)
 			}
 			switch op.Op {
 			case "maintain":
-				certmagic.VerifUpdateOCSPStaples(ctx, h.cache)
+				pmsg = safely(func() { certmagic.VerifUpdateOCSPStaples(ctx, h.cache) })
 			case "handshake":
 				h.cfg.OnDemand = &certmagic.OnDemandConfig{DecisionFunc: func(context.Context, string) error { return nil }}
 				hello, done := doubles.Hello(target.name)
-				tc, herr := h.cfg.GetCertificate(hello)
+				var tc *tls.Certificate
+				var herr error
+				pmsg = safely(func() { tc, herr = h.cfg.GetCertificate(hello) })
 				done()
 				// a forced renewal runs in the background: wait for it to finish
 				for i := 0; i < 2000 && certmagic.VerifOnDemandRenewalPending(target.name); i++ {
@@ -1281,13 +1319,24 @@ func (wd *c14World) runHist1(plan c14Plan, desc map[string]any, abandoned *bool)
 					if ob, ok := own[target.idx]; ok {
 						ow = t.blob(ob)
 					}
-					observe(mid, "manage:cache", ow, nil, []*c14Cert{target}, mark, lmark)
+					observe(mid, "manage:cache", ow, nil, "", []*c14Cert{target}, mark, lmark)
 					mark, lmark = wd.resp.Mark(), len(h.b.Log.Snapshot())
 					return nil
 				}
-				merr := h.cfg.ManageSync(ctx, []string{target.name})
+				var merr error
+				pmsg = safely(func() { merr = h.cfg.ManageSync(ctx, []string{target.name}) })
 				h.cfg.OnEvent = nil
 				_ = merr
+				if !midDone && pmsg != "" {
+					// it never got as far as caching the certificate: reported as the cache step
+					midDone = true
+					mid.Int(1).Int(target.idx).Bool(true).Bool(op.Disabled)
+					encEnv(mid, ev0)
+					mid.Big(bigTime(now))
+					observe(mid, "manage:cache", -1, nil, pmsg, []*c14Cert{target}, mark, lmark)
+					h.b.Log.Hook = nil
+					continue
+				}
 				if !midDone {
 					wd.w.Hist("hist.manage.NOT-CACHED")
 					h.b.Log.Hook = nil
@@ -1379,7 +1428,7 @@ func (wd *c14World) runHist1(plan c14Plan, desc map[string]any, abandoned *bool)
 				wd.w.Hist("hist." + op.Op + ".forced-renewal")
 			}
 		}
-		observe(se, opName, ownRef, ret, callCerts, mark, lmark)
+		observe(se, opName, ownRef, ret, pmsg, callCerts, mark, lmark)
 	}
 	if *abandoned {
 		return
@@ -1434,7 +1483,8 @@ func (wd *c14World) randAns(r *rand.Rand) c14Ans {
 	case 2:
 		return c14Ans{Kind: "garbage", HTTP: []int{0, 500, 502}[r.Intn(3)]}
 	case 3:
-		return c14Ans{Kind: []string{"empty", "tryLater", "truncated"}[r.Intn(3)], Status: ocsp.Good, Serial: "right", This: "recent", Next: "week", Signer: "ca"}
+		return c14Ans{Kind: []string{"empty", "empty", "whitespace", "midbody", "tryLater", "truncated"}[r.Intn(6)], HTTP: []int{0, 0, 502, 503}[r.Intn(4)],
+			Status: ocsp.Good, Serial: "right", This: "recent", Next: "week", Signer: "ca"}
 	}
 	a := c14Ans{Kind: "resp", Status: []int{ocsp.Good, ocsp.Good, ocsp.Good, ocsp.Revoked, ocsp.Unknown}[r.Intn(5)], Serial: "right", Signer: "ca"}
 	if r.Intn(6) == 0 {
@@ -1748,6 +1798,32 @@ func runC14(tier string, seed int64, outdir string, replay string) error {
 		c14HOp{Op: "restart"},
 		c14HOp{Op: "manage", Cert: 0, Ans: one(c14Ans{Kind: "drop"})},
 		c14HOp{Op: "maintain", Ans: one(c14Ans{Kind: "drop"}), Renew: "ok"}), map[string]any{"class": "ticks-across-restarts"})
+	// a responder (or the load balancer in front of it) that answers with nothing: bare 503 / 502,
+	// 200 with an empty body, only white space, connection closed in the middle of the body — asked
+	// because nothing reusable is persisted
+	var nothing []c14Ans
+	for _, a := range []c14Ans{{Kind: "empty", HTTP: 503}, {Kind: "empty", HTTP: 502}, {Kind: "empty"}, {Kind: "whitespace"}, {Kind: "midbody", Status: ocsp.Good, Serial: "right", This: "recent", Next: "week", Signer: "ca"}} {
+		nothing = append(nothing, a)
+		for _, fl := range []string{"normal", "short", "noissuer-aia"} {
+			for _, sk := range []string{"absent", "stale", "corrupt"} {
+				wd.runCall(c14CallIn{Flavor: fl, Stored: sk, Ans: a})
+			}
+		}
+	}
+	for i, a := range nothing {
+		staleG0 := c14Ans{Kind: "resp", Status: ocsp.Good, Serial: "right", This: "old", Next: "plus6h", Signer: "ca"}
+		wd.runHist(mkPlan("u:normal,m:normal",
+			c14HOp{Op: "cache", Cert: 0, Ans: one(a)},
+			c14HOp{Op: "cache", Cert: 1, Ans: one(a)},
+			c14HOp{Op: "maintain", Ans: one(a), Renew: "ok"},
+			c14HOp{Op: "maintain", Ans: one(staleG0), Renew: "ok"},
+			c14HOp{Op: "maintain", Ans: one(a), Renew: "ok"},
+			c14HOp{Op: "handshake", Cert: 1, Ans: one(a), Renew: "ok"},
+			c14HOp{Op: "restart"},
+			c14HOp{Op: "tamper", Cert: 1, Stored: "absent"},
+			c14HOp{Op: "manage", Cert: 1, Ans: one(a), Renew: "ok"},
+			c14HOp{Op: "maintain", Ans: one(goodAns()), Renew: "ok"}), map[string]any{"class": fmt.Sprintf("responder-says-nothing-%d", i)})
+	}
 	// histories aimed at each clause
 	wd.runHist(mkPlan("u:normal",
 		c14HOp{Op: "cache", Cert: 0, Ans: one(goodAns())},
